@@ -9,13 +9,14 @@ export GOFLAGS=-mod=mod GOPROXY=off GOSUMDB=off GOTOOLCHAIN=local; unset GOWORK
 HERE=/verif
 ( cd $HERE/checker && go build -o $HERE/bin/mqttverif . ) || exit 2
 # a private copy of the checker, so that a rebuild during the (long) run does not change it half-way
-BIN=$(mktemp /tmp/matrix_bin_XXXX); cp $HERE/bin/mqttverif $BIN
+BIN=$(mktemp /tmp/matrix_bin_XXXX); cp $HERE/bin/mqttverif $BIN; chmod +x $BIN
 WT=$(mktemp -d /tmp/matrix_XXXX); rmdir "$WT"
 git -C /repo worktree add -q "$WT" HEAD || exit 2
 trap 'git -C /repo worktree remove --force "$WT" 2>/dev/null; rm -rf "$WT" /tmp/matrix_ev "$BIN"' EXIT
 if [ $# -gt 0 ]; then SEEDS="$*"; else SEEDS=$(ls $HERE/seeded | grep -E '^C[0-9]+-[0-9]+$' | sort -V); fi
 # baseline: the unchanged worktree must be silent
 $BIN -repo "$WT" -prop all -known $HERE/known_findings.json -evidence /tmp/matrix_ev > /tmp/matrix_base.log 2>&1
+if [ "$(grep -c 'exit=0' /tmp/matrix_base.log)" -lt 42 ]; then echo "baseline run incomplete" >&2; tail -3 /tmp/matrix_base.log >&2; exit 2; fi
 if grep -q '^VIOLATION' /tmp/matrix_base.log; then echo "baseline not silent" >&2; grep '^VIOLATION' /tmp/matrix_base.log >&2; exit 1; fi
 OUT=/tmp/matrix_rows.txt; : > $OUT
 for s in $SEEDS; do
